@@ -13,6 +13,7 @@ func vGhostSet(p interface{}, name string, v []byte)      { panic("symbolic only
 func vGhostGet(p interface{}, name string) []byte         { panic("symbolic only") }
 func vSameTerm(a, b []byte) bool                          { panic("symbolic only") }
 func vFieldBytes(p interface{}, i int) []byte             { panic("symbolic only") }
+func vSetField(p interface{}, v interface{}, path ...int)  { panic("symbolic only") }
 func vAssume(c bool)                                      { panic("symbolic only") }
 
 func clone(b []byte) []byte {
